@@ -206,3 +206,21 @@ Theorem pq_tree_algo_gate : forall elems d alts p,
   dt_soc_toc d = false -> PrefVerif.Model.PQTreeSP.is_single_peaked_pq_tree_algo elems d alts p = Err TypeErr.
 Proof. exact PrefVerif.Proofs.PQTreeSP.pq_tree_algo_gate. Qed.
 Print Assumptions pq_tree_algo_gate.
+
+(* completeness of the mirrored PQ-tree (C05 package, Proofs/PQTreeComplete.v) re-exported: the algorithm answers True
+   whenever some axis passes the axis test, hence it DECIDES weak-order single-peakedness *)
+Theorem pq_tree_sp_complete : forall elems d (alts : list N) (p : list order),
+  NoDup alts -> Forall (complete_on alts) p -> dt_soc_toc d = true ->
+  (exists axis, Permutation alts axis /\ sp_axis_profile p axis = true) ->
+  PrefVerif.Model.PQTreeSP.is_single_peaked_pq_tree_algo elems d alts p = Ok true.
+Proof. exact PrefVerif.Proofs.PQTreeSP.pq_tree_sp_complete. Qed.
+Print Assumptions pq_tree_sp_complete.
+
+Theorem pq_tree_sp_correct : forall elems d (alts : list N) (p : list order),
+  NoDup alts -> Forall (complete_on alts) p -> dt_soc_toc d = true ->
+  incl (concat (PrefVerif.Model.C1P.dedup_sets
+                  (map (PrefVerif.Model.C1P.col_set (sp_matrix alts p)) (seq 0 (length alts))))) elems ->
+  (PrefVerif.Model.PQTreeSP.is_single_peaked_pq_tree_algo elems d alts p = Ok true <->
+   exists axis, Permutation alts axis /\ sp_axis_profile p axis = true).
+Proof. exact PrefVerif.Proofs.PQTreeSP.pq_tree_sp_correct. Qed.
+Print Assumptions pq_tree_sp_correct.
